@@ -30,6 +30,7 @@ def t_loc(chk, ix):
     rules_location.check_add_location_and_clear(chk, ix)
     rules_location.check_name_selection(chk, ix)
     rules_location.check_location_parsing(chk, ix)
+    rules_location.check_walk_scenarios(chk, ix, "L10")
     funcs = [ix.func("behave.runner_util:FeatureLineDatabase.select_scenarios_by_line"),
              ix.func("behave.runner_util:FeatureLineDatabase.make_line_data_for"),
              ix.func("behave.model:ScenarioContainer.walk_scenarios")]
@@ -39,5 +40,5 @@ def t_loc(chk, ix):
 
 def run(chk, ix, tier):
     t_loc(chk, ix)
-    for r, n in (("L1", 4), ("L3", 2), ("L4", 6), ("L6", 3), ("L7", 8), ("L8", 3), ("L9", 11), ("RF1", 3), ("G4", 16)):
+    for r, n in (("L1", 4), ("L3", 2), ("L4", 6), ("L6", 3), ("L7", 8), ("L8", 3), ("L9", 11), ("L10", 3), ("RF1", 3), ("G4", 16)):
         chk.require_instances(r, n)
